@@ -10,6 +10,7 @@
   `context_order_matters` shows the same statement is false for the old order).
 -/
 import AioftpModel.Model.Faults
+import AioftpModel.Model.ExcFunnel
 
 namespace C13
 open Model Model.Faults Generated
@@ -510,5 +511,43 @@ example :
 example : backendCalls (program .mlsd { entries := [true, false] }) =
     [.exists_, .listStep, .exists_, .stat, .isFile, .listStep, .exists_, .stat, .isFile, .isDir, .listStep] := by
   decide
+
+/-! ### where "a failing backend call raises PathIOError" comes from: the exception funnel -/
+
+open Model.ExcFunnel in
+/-- **fact_universal_exception**: as regenerated from `pathio.py`, the wrapper re-raises exactly `CancelledError`,
+    `NotImplementedError` and `StopAsyncIteration` unchanged and turns every other `Exception` into `PathIOError` -/
+theorem fact_universal_exception :
+    Generated.PathIO.universalExceptionPassThrough = ["asyncio.CancelledError", "NotImplementedError", "StopAsyncIteration"] ∧
+    Generated.PathIO.universalExceptionWrapsTheRest = true := by decide
+
+/-- **fact_contexts_and_executor**: the file context's `__aexit__` returns nothing (it cannot swallow what the body of
+    `async with stream, file` raised), and `_blocking_io` awaits the executor call and nothing else (no try, no
+    shield: a cancelled caller is a cancelled call) -/
+theorem fact_contexts_and_executor :
+    Generated.PathIO.fileContextExitReturnsNothing = true ∧ Generated.PathIO.blockingIoPlainAwait = true := by decide
+
+open Model.ExcFunnel in
+/-- **backend_exception_is_451**: EVERY `Exception` a backend call raises - a timeout among them - other than the two
+    the wrapper names (`NotImplementedError`, `StopAsyncIteration`: the library's own signals) reaches the dispatcher
+    as `PathIOError` and is answered 451 with the session going on; nothing a backend raises as an `Exception` can end
+    the session through this path.  (What then happens to the data connection: `fault_closes_data`.) -/
+theorem backend_exception_is_451 (e : Exc) (he : e.isException = true) (h1 : e ≠ .notImplemented) (h2 : e ≠ .stopAsyncIteration) :
+    fateNow e = .answered451 := by
+  cases e <;> first | rfl | (exfalso; first | exact h1 rfl | exact h2 rfl | (revert he; decide))
+
+open Model.ExcFunnel in
+/-- a cancellation (ABOR, the session ending) is never turned into a 451: it propagates -/
+theorem cancellation_is_not_a_fault : fateNow .cancelled = .propagates := by decide
+
+open Model.ExcFunnel in
+/-- **old_timeout_ended_the_session** (what seeded changes C05_K / C13_O do): with `TimeoutError` added to the classes
+    re-raised unchanged, a backend time-out ends the session without a reply -/
+theorem passing_timeouts_through_ends_the_session :
+    dispatcherFate (universalException ["asyncio.CancelledError", "NotImplementedError", "StopAsyncIteration", "asyncio.TimeoutError"] true .timeout)
+      = .sessionEnds := by decide
+
+open Model.ExcFunnel in
+example : Exc.timeout.isException = true ∧ fateNow .timeout = .answered451 ∧ fateNow .attributeError = .answered451 := by decide
 
 end C13
